@@ -827,7 +827,7 @@ def reader_run(ctx, fileset, n, faults, cases, keep=True, unit=True, chunk=4, in
                expect_violation=expect_violation, count=not expect_violation)
 
 
-def reader_rand_run(ctx, fileset, n, cases, chunk=2, intr=0, salt=0):
+def reader_rand_run(ctx, fileset, n, cases, chunk=2, intr=0, salt=0, faults="none"):
     """Reader.tla over a seed-generated byte alphabet: eight random payload bytes besides LF, CR, NUL, and seven random
     UTF-16 code units of which some carry a 0x0A byte (module RandReader, overriding PayloadBytes / Units)."""
     import random
@@ -851,9 +851,9 @@ def reader_rand_run(ctx, fileset, n, cases, chunk=2, intr=0, salt=0):
             fh.write(text)
     sany(ctx, "RandReader")
     cfg = dict(spec="Spec", invariants=READER_INV, properties=["Terminates", "FaultSurfaces"], view="View",
-               constants=dict(FileSet='"%s"' % fileset, FileN=str(n), MaxChunk=str(chunk), MaxIntr=str(intr), FaultSet='"none"',
+               constants=dict(FileSet='"%s"' % fileset, FileN=str(n), MaxChunk=str(chunk), MaxIntr=str(intr), FaultSet='"%s"' % faults,
                               KeepShortChunks="TRUE", UnitAware="TRUE", Emit="TRUE", PayloadBytes="<-RandPayload", Units="<-RandUnits"))
-    return tlc(ctx, "RandReader", "MC_RandReader_%s%d_c%d_i%d" % (fileset, n, chunk, intr), cfg, workers=14, timeout=3000, cases_file=cases)
+    return tlc(ctx, "RandReader", "MC_RandReader_%s%d_c%d_i%d_%s" % (fileset, n, chunk, intr, faults), cfg, workers=14, timeout=3000, cases_file=cases)
 
 
 def check_C08(ctx):
@@ -891,6 +891,9 @@ def check_C09(ctx):
     cases = os.path.join(ctx.work, "reader.ndjson")
     reader_run(ctx, "hdr", 2 if thorough else 1, "all", cases, chunk=3, intr=1)
     reader_run(ctx, "tiny", 4 if thorough else 3, "all", cases, chunk=3, intr=1)
+    # seed-generated byte alphabets: a failure at every offset of every short random file
+    for salt in ([1, 0] if thorough else [0]):
+        reader_rand_run(ctx, "hdr", 1, cases, chunk=3, intr=1, salt=salt, faults="all")
     # pinned LE handling: an UnexpectedEof that no reader failure caused
     reader_run(ctx, "hdr", 1, "none", None, unit=False, expect_violation=True, inv=["ErrorProvenance"])
     summ = harness(ctx, ["reader", "replay", "--prop", "C09"], cases_file=cases, name="reader-replay", timeout=3600)
